@@ -13,8 +13,14 @@ import (
 func (fc *FCtx) execBlock(stmts []ast.Stmt, st *State) *Flow {
 	out := newFlow()
 	cur := st
-	top := len(fc.frames) == 1 && fc.C != nil && (len(fc.C.Asserts) > 0 || len(fc.C.NamedAsserts) > 0) && len(stmts) > 0 && len(fc.FI.Body().List) > 0 && stmts[0] == fc.FI.Body().List[0]
-	seenDef := map[string]bool{}
+	own := len(fc.frames) == 1 && fc.C != nil && (len(fc.C.Asserts) > 0 || len(fc.C.NamedAsserts) > 0) && len(stmts) > 0
+	top := own && len(fc.FI.Body().List) > 0 && stmts[0] == fc.FI.Body().List[0]
+	if fc.seenDef == nil {
+		fc.seenDef = map[string]bool{}
+	}
+	if fc.anchored == nil {
+		fc.anchored = map[string]bool{}
+	}
 	checkAsserts := func(cs []*Clause, label string, pos token.Pos) {
 		for k, a := range cs {
 			env := fc.newEnv(cur, fc.entry, pos)
@@ -30,21 +36,31 @@ func (fc *FCtx) execBlock(stmts []ast.Stmt, st *State) *Flow {
 		var defs []string
 		if top {
 			checkAsserts(fc.C.Asserts[i], fmt.Sprint(i), s.Pos())
+		}
+		if own {
+			// name-anchored asserts attach to the first statement (in execution order, at any nesting depth
+			// of the function's own body) that defines or assigns the name
 			defs = definedNames(s)
 			for _, d := range defs {
-				if !seenDef[d] {
-					checkAsserts(fc.C.NamedAsserts["before:"+d], "before-"+d, s.Pos())
+				if !fc.seenDef[d] {
+					if cs := fc.C.NamedAsserts["before:"+d]; len(cs) > 0 {
+						fc.anchored["before:"+d] = true
+						checkAsserts(cs, "before-"+d, s.Pos())
+					}
 				}
 			}
 		}
 		f := fc.execStmt(s, cur, "")
 		out.absorb(f)
 		cur = fc.merge(f.normal)
-		if top && cur != nil {
+		if own {
 			for _, d := range defs {
-				if !seenDef[d] {
-					seenDef[d] = true
-					checkAsserts(fc.C.NamedAsserts["after:"+d], "after-"+d, s.End())
+				if !fc.seenDef[d] {
+					fc.seenDef[d] = true
+					if cs := fc.C.NamedAsserts["after:"+d]; len(cs) > 0 && cur != nil {
+						fc.anchored["after:"+d] = true
+						checkAsserts(cs, "after-"+d, s.End())
+					}
 				}
 			}
 		}
@@ -507,8 +523,16 @@ func (fc *FCtx) dryRunGhosts(st *State, body func(s *State) []*State) (changed m
 	cacheN := fc.cacheN
 	mayPanic, recoverLit := fc.mayPanic, fc.recoverLit
 	guards := append([]string(nil), fc.guards...)
+	seenDef, anchored := map[string]bool{}, map[string]bool{}
+	for k, v := range fc.seenDef {
+		seenDef[k] = v
+	}
+	for k, v := range fc.anchored {
+		anchored[k] = v
+	}
 	changed = map[string]bool{}
 	defer func() {
+		fc.seenDef, fc.anchored = seenDef, anchored
 		fc.Obls = fc.Obls[:nObl]
 		fc.counters = counters
 		fr.returns = fr.returns[:nRet]
